@@ -227,6 +227,42 @@ class Ctx:
             res = list(ex.map(one, files))
         return [r for rs in res for r in rs]
 
+    def conformance(self, files, module="TraceWal.tla", cfg="TraceWal.cfg"):
+        """Strict mode: recordings with projected implementation state checked against Layer B.
+        A mismatch is DRIFT (the code left the model-checked design), never a verdict about the property:
+        it is printed, counted in the evidence and the check goes on."""
+        saved = {k: self.cov[k] for k in ("recordings", "events", "traces_validated_against_impl")}
+        try:
+            rejs = self.validate(files, module=module, cfg=cfg, max_rej=4)
+        except Inconclusive as e:
+            # the conformance stage decides nothing about the property: a TLC error here (for instance a logged
+            # state outside the domain of the model's operators) is reported like a mismatch
+            self.cov.update(saved)
+            what = "Layer-B conformance (%s) could not be evaluated: %s" % (module, str(e)[:300].replace("\n", " "))
+            print("DRIFT property=%s %s" % (self.prop, what))
+            self.cov.setdefault("layer_b_conformance", {}).setdefault(module, dict(recordings=0, events=0, drift=[]))["drift"].append(what)
+            self.cov["drift"] += 1
+            return []
+        nrec = self.cov["recordings"] - saved["recordings"]
+        nev = self.cov["events"] - saved["events"]
+        self.cov.update(saved)
+        c = self.cov.setdefault("layer_b_conformance", {}).setdefault(module, dict(recordings=0, events=0, drift=[]))
+        c["recordings"] += nrec
+        c["events"] += nev
+        for rej in rejs:
+            chunk, at = rej["chunk"], rej["at"]
+            try:
+                ev = json.loads(chunk[at - 1])
+                head = json.loads(chunk[0])
+            except Exception:
+                ev, head = {}, {}
+            what = "recording %s (fs=%s) event #%d (log state after %s) is not a step of Layer B (%s)" % (
+                head.get("id"), head.get("fs"), at, ev.get("after"), module)
+            print("DRIFT property=%s %s" % (self.prop, what))
+            c["drift"].append(what)
+            self.cov["drift"] += 1
+        return rejs
+
     def sample_from(self, file, n=2, maxlen=1800):
         """Put the beginning of a few recordings into the evidence samples."""
         cnt = 0
@@ -276,8 +312,10 @@ class Ctx:
         cov["notes"] = self.notes[:20]
         ev = dict(property_id=self.prop, tier=self.tier, seed=self.seed, level=level, coverage=cov,
                   assumptions=self.assumptions, wall_s=round(time.time() - self.t0, 2), violations=len(self.violations))
-        os.makedirs(os.path.join(VERIF, "evidence"), exist_ok=True)
-        with open(os.path.join(VERIF, "evidence", self.prop + ".json"), "w") as f:
+        # evidence/ holds runs against /repo only; trials on scratch worktrees (VERIF_REPO) write elsewhere
+        evdir = os.path.join(VERIF, "evidence") if os.path.realpath(REPO) == "/repo" else os.path.join(tempfile.gettempdir(), "verif-trial-evidence")
+        os.makedirs(evdir, exist_ok=True)
+        with open(os.path.join(evdir, self.prop + ".json"), "w") as f:
             json.dump(ev, f, indent=1)
         for path, text in self.violations:
             print("VIOLATION property=%s replay=%s" % (self.prop, path))
